@@ -1297,14 +1297,18 @@ As a workaround use x.as_expr() %s y.as_expr()""" % op)
 
         # For phasor comparisons...
         # FIXME, remove phasor stuff?
-        if self.is_phasor_ratio_domain and x.is_angular_fourier_domain:
-            return cls, self, cls(x), assumptions
-        elif self.is_angular_fourier_domain and x.is_phasor_ratio_domain:
-            return xcls, cls(self), x, assumptions
-        elif self.is_angular_frequency_response_domain and x.is_angular_fourier_domain:
-            return cls, self, cls(x), assumptions
-        elif self.is_angular_fourier_domain and x.is_angular_frequency_response_domain:
-            return xcls, cls(self), x, assumptions
+        # The quantities must be compatible, as for operands of the same domain.
+        if (self.quantity == x.quantity or
+            (self.quantity == 'undefined' and (state.loose_units or x.is_transfer)) or
+                (x.quantity == 'undefined' and (state.loose_units or self.is_transfer))):
+            if self.is_phasor_ratio_domain and x.is_angular_fourier_domain:
+                return cls, self, cls(x), assumptions
+            elif self.is_angular_fourier_domain and x.is_phasor_ratio_domain:
+                return xcls, cls(self), x, assumptions
+            elif self.is_angular_frequency_response_domain and x.is_angular_fourier_domain:
+                return cls, self, cls(x), assumptions
+            elif self.is_angular_fourier_domain and x.is_angular_frequency_response_domain:
+                return xcls, cls(self), x, assumptions
 
         if not self._add_compatible_domains(x):
             self._incompatible_domains(x, op)
